@@ -11,7 +11,7 @@ import (
 
 func init() {
 	register("A4", "foreign memory confinement: slices of caller-owned memory (zero-copy decode, frozen view, FromDense without copy) are stored only as payload of containers whose slot flag is true on that path, never as slot-table arrays; NextReturnsSafeSlice may be true only for a byte source whose Next allocates", ruleA4)
-	register("A5", "detach: cloneCopyOnWriteContainers replaces every flagged slot by a deep clone and clears its flag", ruleA5)
+	register("A5", "detach: cloneCopyOnWriteContainers replaces every flagged slot by a deep clone and clears its flag; the 64-bit table also detaches every bucket's own containers", ruleA5)
 }
 
 // taint: slice-typed SSA values of function f that may address caller-owned memory.
@@ -496,7 +496,7 @@ func (t *tlFunc) freshPayloadStoreDominates(ti *taintInfo, ps payloadStore, b *s
 }
 
 func ruleA5(p *Prog) *RuleResult {
-	res := newResult("A5", ruleDoc["A5"], 2)
+	res := newResult("A5", ruleDoc["A5"], 3)
 	for _, lvl := range []string{"32", "64"} {
 		e, err := p.TL(lvl)
 		if err != nil {
@@ -564,8 +564,84 @@ func ruleA5(p *Prog) *RuleResult {
 		} else {
 			res.bad(name, p.pos(f.Pos()), why)
 		}
+		if lvl == "64" {
+			// the slots of the 64-bit table are 32-bit bitmaps with copy-on-write flags of their own (set by
+			// FromUnsafeBytes, and kept by Clone in copy-on-write mode): every iteration of the detach loop
+			// must also detach the bucket's own containers
+			c := name + "|inner detach"
+			var calls []ssa.Instruction
+			for _, b := range f.Blocks {
+				for _, ins := range b.Instrs {
+					call, ok := ins.(*ssa.Call)
+					if !ok || calleeName(&call.Call) != "(*roaring.Bitmap).CloneCopyOnWriteContainers" || len(call.Call.Args) == 0 {
+						continue
+					}
+					ld, ok := call.Call.Args[0].(*ssa.UnOp)
+					if !ok {
+						continue
+					}
+					tab, fld, idx, ok := t.tableElemAddr(ld.X)
+					if ok && tab == "P0" && fld == lv.fCont && indexCoversWholeTable(t, idx) {
+						calls = append(calls, call)
+					}
+				}
+			}
+			switch {
+			case len(calls) == 0:
+				res.bad(c, p.pos(f.Pos()), "no call of the bucket's own CloneCopyOnWriteContainers on every slot: a bitmap made by FromUnsafeBytes keeps reading the caller's buffer after the detach")
+			case !everyIterationPasses(calls[0].Block(), calls):
+				res.bad(c, p.ipos(calls[0]), "the bucket's own CloneCopyOnWriteContainers is skipped on some iteration of the detach loop")
+			default:
+				res.ok(c, p.ipos(calls[0]), "every iteration calls the bucket's own CloneCopyOnWriteContainers")
+			}
+		}
 	}
 	return res
+}
+
+// everyIterationPasses: in the innermost loop around block in, no path from the loop header back to the
+// header avoids every block holding one of the instructions.
+func everyIterationPasses(in *ssa.BasicBlock, must []ssa.Instruction) bool {
+	// loop header: a block that dominates `in` and is reachable from it
+	var header *ssa.BasicBlock
+	for h := in; h != nil; h = h.Idom() {
+		for _, pr := range h.Preds {
+			if h.Dominates(pr) && (pr == in || blockReaches(in, pr)) {
+				header = h
+			}
+		}
+		if header != nil {
+			break
+		}
+	}
+	if header == nil {
+		return false
+	}
+	blocked := map[*ssa.BasicBlock]bool{}
+	for _, m := range must {
+		blocked[m.Block()] = true
+	}
+	if blocked[header] {
+		return true
+	}
+	seen := map[*ssa.BasicBlock]bool{}
+	var dfs func(b *ssa.BasicBlock) bool // true: the header is reached again without a blocked block
+	dfs = func(b *ssa.BasicBlock) bool {
+		for _, s := range b.Succs {
+			if s == header {
+				return true
+			}
+			if blocked[s] || seen[s] || !header.Dominates(s) {
+				continue
+			}
+			seen[s] = true
+			if dfs(s) {
+				return true
+			}
+		}
+		return false
+	}
+	return !dfs(header)
 }
 
 // indexCoversWholeTable: idx is the induction variable of `for i := range T.<slice>` (SSA: phi(-1, i+1)
